@@ -23,7 +23,7 @@ func init() {
 		Real:           []string{"resp.Write/writeBodyStream", "resp.chunkedBodyWriter", "ext.WriteBodyChunked/WriteBodyFixedSize/WriteChunk/WriteTrailer", "ResponseHeader.AppendBytes", "http1.Server.Serve (Connection decision)", "standard.Conn writer"},
 		Stub:           []string{"TCP (SimConn)", "peer (scripted actor)", "transporter accept loop (stub)", "clock (synctest)"},
 		Assumptions:    []string{"header values are token-safe (hostile bytes are C05's subject, not applicable here)", "documented exclusion honoured: the hijacked chunked writer is not installed on bodiless responses", "a handler-chosen 1xx status is treated as the final response of its request", "with the hijacked chunked writer the header block leaves before the server decides about Connection: the Connection-header oracle is not applied to those responses"},
-		RequiredProbes: []string{"mode-none", "mode-setbody", "mode-append", "mode-write", "mode-stream-n", "mode-stream-unknown", "mode-stream-limited", "mode-chunked-writer", "bodiless-status", "head", "http10", "second-after-chunked", "backpressure", "trailers"},
+		RequiredProbes: []string{"mode-none", "mode-setbody", "mode-append", "mode-write", "mode-stream-n", "mode-stream-unknown", "mode-stream-limited", "mode-chunked-writer", "mode-abort-with-msg", "mode-reset-then-body", "flush-before-write", "bodiless-status", "head", "http10", "second-after-chunked", "backpressure", "trailers"},
 	}
 }
 
@@ -131,7 +131,7 @@ func genProg(tp *core.Tape, idx int, ep *core.Episode, method string) *respProg 
 	if tp.Chance("usize", 1, 4) {
 		size = tp.Choose("usizev", 9000)
 	}
-	p.mode = tp.Choose("mode", 8)
+	p.mode = tp.Choose("mode", 10)
 	if p.mode == 7 && bodiless {
 		p.mode = tp.Choose("mode2", 7) // documented exclusion
 	}
@@ -207,6 +207,7 @@ func genProg(tp *core.Tape, idx int, ep *core.Episode, method string) *respProg 
 		if left > 0 {
 			pat = append(pat, wr{left, false})
 		}
+		preFlush := tp.Chance("preflush", 1, 4)
 		emptyWrite := ep.Param("emptywrite") != "off" && tp.Chance("emptywrite", 1, 6)
 		if tp.Chance("trailer", 1, 3) {
 			p.trailers = []wire.Header{{K: "X-Sum", V: fmt.Sprintf("s%d", idx)}}
@@ -217,6 +218,9 @@ func genProg(tp *core.Tape, idx int, ep *core.Episode, method string) *respProg 
 			ctx.Response.HijackWriter(resp.NewChunkedBodyWriter(&ctx.Response, ctx.GetWriter()))
 			for _, t := range tr {
 				ctx.Response.Header.Trailer().Set(t.K, t.V)
+			}
+			if preFlush {
+				ctx.Flush() // a flush before anything was written
 			}
 			off := 0
 			for i, w := range pat {
@@ -233,6 +237,25 @@ func genProg(tp *core.Tape, idx int, ep *core.Episode, method string) *respProg 
 		if emptyWrite && len(pat) > 1 {
 			ep.Probe("empty-write")
 		}
+		if preFlush {
+			ep.Probe("flush-before-write")
+		}
+	case 8: // reset-style helper: everything set before is dropped
+		ep.Probe("mode-abort-with-msg")
+		msg := string(core.PatternBytes(byte(70+idx), 1+tp.Choose("msglen", 200)))
+		p.body = []byte(msg)
+		p.hdrs, p.cookies, p.close = nil, nil, false
+		p.ct = "text/plain; charset=utf-8"
+		p.ops = append(p.ops, func(ctx *app.RequestContext) { ctx.AbortWithMsg(msg, st) })
+	case 9:
+		ep.Probe("mode-reset-then-body")
+		p.body = body
+		p.hdrs, p.cookies, p.close, p.ct = nil, nil, false, ""
+		p.ops = append(p.ops, func(ctx *app.RequestContext) {
+			ctx.Response.Reset()
+			ctx.SetStatusCode(st)
+			ctx.Response.SetBody(body)
+		})
 	}
 	if p.immFlush {
 		p.ops = append(p.ops, func(ctx *app.RequestContext) { ctx.Response.ImmediateHeaderFlush = true })
